@@ -13,7 +13,7 @@ LEVEL = 'model_checking'
 RULE = ('programs = every body tree with <= N operators over the 8 leaves in the context of C05 (callee with a later '
         'clause, caller with alternatives, a dynamic fact) and the meta-call programs of C09 over o/1, m/1, r/2; for '
         'each program EVERY non-empty subset of the fact predicates it uses (z/0 o/1 m/1 k/1, r/2) is re-implemented as a '
-        'registered Python generator function x registration style {inferred, explicit, explicit with a generic *args function, variadic arity} x yielded '
+        'registered Python generator function x registration style {inferred, explicit, explicit with a generic *args function, variadic arity; inferred also for a bound method and for a functools.wraps-decorated function} x yielded '
         'value {False, True} [x a dynamic fact next to the Python predicate] [x on a fresh engine / on an engine that was queried before and had an earlier version of the predicates registered]; answers compared with RefProlog run on '
         'the all-Prolog program. For every program/subset additionally one run per event j (entry or resumption of a '
         'Python predicate) in which the predicate raises a fresh exception object - of each of 7 classes (a custom one, TypeError, ValueError, RuntimeError, KeyError, AttributeError, AssertionError), through an inferred-arity and through a variadic registration - at its j-th event: the consumer must '
@@ -88,6 +88,28 @@ def make_py(yp, key, style, yv, events):
     else:
         def pred(arg1, arg2):
             return body((arg1, arg2))
+    if style == 'inferred-method':
+        # a bound method: the function object behind it has one more parameter (self)
+        class Holder:
+            def p0(self):
+                return body(())
+
+            def p1(self, arg1):
+                return body((arg1,))
+
+            def p2(self, arg1, arg2):
+                return body((arg1, arg2))
+        return getattr(Holder(), 'p%d' % n), None
+    if style == 'inferred-decorated':
+        # an ordinary decorator: the object that is registered is a generic wrapper that declares,
+        # through functools.wraps, the signature of the function it wraps
+        import functools
+        inner = pred
+
+        @functools.wraps(inner)
+        def wrapper(*args, **kwargs):
+            return inner(*args, **kwargs)
+        return wrapper, None
     return pred, (n if style == 'explicit' else None)
 
 
@@ -197,8 +219,10 @@ def check_program(acc, index, clauses, goal, dyn_extra, label):
         exp = [anonymize(a, anon_ix) for a in exp]
     subsets = [s for r in range(1, len(used) + 1) for s in itertools.combinations(used, r)]
     for sub in subsets:
-        for style in ('inferred', 'explicit', 'explicit-generic', 'variadic'):
+        for style in ('inferred', 'explicit', 'explicit-generic', 'variadic', 'inferred-method', 'inferred-decorated'):
             for yv in (False, True):
+                if style in ('inferred-method', 'inferred-decorated') and yv is False:
+                    continue
                 acc.n['evaluations'] += 1
                 acc.n['validated'] += 1
                 case = {'label': label, 'clauses': _j(clauses), 'goal': _j(goal), 'dyn': _j(dyn_extra),
